@@ -79,6 +79,7 @@ HCIcrle_init(accrec_t *access_rec)
 
     /* Initialize RLE state information */
     rle_info->rle_state   = RLE_INIT;          /* start in initial state */
+    rle_info->encoding    = FALSE;             /* nothing waits to be encoded */
     rle_info->buf_pos     = 0;                 /* start at the beginning of the buffer */
     rle_info->last_byte   = (unsigned)RLE_NIL; /* start with no code in the last byte */
     rle_info->second_byte = (unsigned)RLE_NIL; /* start with no code here too */
@@ -183,6 +184,8 @@ HCIcrle_encode(compinfo_t *info, int32 length, const uint8 *buf)
     rle_info = &(info->cinfo.coder_info.rle_info);
 
     orig_length = length; /* save this for later */
+    if (length > 0)
+        rle_info->encoding = TRUE; /* from here on the buffer holds bytes that have to reach the file */
     while (length > 0) {  /* encode until we stored all the bytes */
         switch (rle_info->rle_state) {
             case RLE_INIT:                      /* initial encoding state */
@@ -307,6 +310,7 @@ HCIcrle_term(compinfo_t *info)
             HRETURN_ERROR(DFE_INTERNAL, FAIL);
     }
     rle_info->rle_state   = RLE_INIT;
+    rle_info->encoding    = FALSE;
     rle_info->second_byte = rle_info->last_byte = (unsigned)RLE_NIL;
 
     return SUCCEED;
@@ -425,7 +429,7 @@ HCPcrle_seek(accrec_t *access_rec, int32 offset, int origin)
     rle_info = &(info->cinfo.coder_info.rle_info);
 
     if (offset < rle_info->offset) { /* need to seek from the beginning */
-        if ((access_rec->access & DFACC_WRITE) && rle_info->rle_state != RLE_INIT)
+        if ((access_rec->access & DFACC_WRITE) && rle_info->encoding && rle_info->rle_state != RLE_INIT)
             if (HCIcrle_term(info) == FAIL)
                 HRETURN_ERROR(DFE_CTERM, FAIL);
         if (HCIcrle_init(access_rec) == FAIL)
@@ -582,7 +586,7 @@ HCPcrle_endaccess(accrec_t *access_rec)
     rle_info = &(info->cinfo.coder_info.rle_info);
 
     /* flush out RLE buffer */
-    if ((access_rec->access & DFACC_WRITE) && rle_info->rle_state != RLE_INIT)
+    if ((access_rec->access & DFACC_WRITE) && rle_info->encoding && rle_info->rle_state != RLE_INIT)
         if (HCIcrle_term(info) == FAIL)
             HRETURN_ERROR(DFE_CTERM, FAIL);
 
